@@ -296,6 +296,42 @@ def consts():
     return out
 
 
+def wkc_sites():
+    """Every place outside src/command where a datagram's working counter is not checked: a read
+    or write chain with `.ignore_wkc()`, and the fire-and-forget `.send(maindevice, ..)` of
+    WrappedWrite.  One entry per site: (file, enclosing fn, what the chain ends in)."""
+    sites = []
+    for dp, dn, fn in os.walk(os.path.join(REPO, "src")):
+        for f in sorted(fn):
+            if not f.endswith(".rs"):
+                continue
+            path = os.path.join(dp, f)
+            rel = os.path.relpath(path, REPO)
+            if rel.startswith("src/command") or rel == "src/verif.rs":
+                continue
+            txt = strip_comments(open(path).read())
+            cut = txt.find("#[cfg(test)]\nmod tests")
+            if cut >= 0:
+                txt = txt[:cut]
+            fns = [(m.start(), m.group(1)) for m in re.finditer(r"\bfn\s+(\w+)", txt)]
+            def enclosing(pos):
+                name = "?"
+                for st, n in fns:
+                    if st <= pos:
+                        name = n
+                return name
+            for m in re.finditer(r"\.ignore_wkc\(\)", txt):
+                tail = txt[m.end():m.end() + 400]
+                t = re.search(r"\.(receive_slice|receive_wkc|receive|send_receive_slice|send_receive|send)\s*(::<[^>]*>)?\s*\(", tail)
+                sites.append((rel, enclosing(m.start()), "ignore_wkc+" + (t.group(1) if t else "?")))
+            for m in re.finditer(r"\.send\(\s*(self\.)?(self\.subdevice\.)?maindevice|\.send\(\s*self\s*,", txt):
+                head = txt[max(0, m.start() - 400):m.start()]
+                if ".ignore_wkc()" in head[head.rfind(";") + 1:]:
+                    continue          # already listed through its ignore_wkc
+                sites.append((rel, enclosing(m.start()), "send"))
+    return sorted(set(sites))
+
+
 def main():
     try:
         structs, enums = collect()
@@ -326,7 +362,14 @@ def main():
     for name, v, where in cs:
         cl.append(f"Definition {name} : N := {v}. (* {where} *)")
     changed2 = write_if_changed(os.path.join(OUT, "SrcConsts.v"), "\n".join(cl) + "\n")
-    summary = {"structs": len(structs), "enums": len(enums),
+    ws = wkc_sites()
+    wl = ["(* GENERATED by tools/src2coq.py from /repo's working tree -- do not edit *)",
+          "From Coq Require Import String List.", "Import ListNotations.", "Local Open Scope string_scope.", "",
+          "(* every call site outside src/command that does not check a working counter *)",
+          "Definition wkc_optout_sites : list (string * string * string) :=\n  [%s]." % ";\n   ".join('("%s", "%s", "%s")' % w for w in ws)]
+    changed3 = write_if_changed(os.path.join(OUT, "WkcSites.v"), "\n".join(wl) + "\n")
+    changed = changed or changed3
+    summary = {"structs": len(structs), "enums": len(enums), "wkc_optout_sites": len(ws),
                "implicit_enums": [e["name"] for e in enums if any(v["disc"] is None and not v["catch"] for v in e["variants"])],
                "consts": len(cs), "changed": bool(changed or changed2)}
     write_if_changed(os.path.join(OUT, "summary.json"), json.dumps({"summary": summary, "structs": structs, "enums": enums}, indent=1))
